@@ -1,7 +1,8 @@
 (* C10 - no deadlock without Stop, every number of established associations, every schedule: when no thread can
    move, every association is either completely gone or waits for input, and the node waits in its select. *)
 From Coq Require Import NArith String List Bool Arith Lia.
-From UPF Require Import Base.LTS Model.Teardown Proofs.TeardownInv Proofs.TeardownProofs Proofs.TeardownForget.
+From UPF Require Import Base.LTS Model.Teardown Proofs.TeardownInv Proofs.TeardownProofs Proofs.TeardownStop
+  Proofs.TeardownForget.
 Import ListNotations.
 Open Scope list_scope.
 
@@ -13,11 +14,11 @@ Lemma assoc_not_stuck sess me nd a :
   parked_ok a = true.
 Proof.
   intros Hinv Hfin Hcl Hbuf Hcap Hblk.
-  destruct a as [st de on sh tm hb so ib ta ha rd se ht fs].
-  destruct nd as [cx pc dn ls mp ex bu mn th sp].
+  destruct a as [st de on sh tm hb so ib ta ha hr rd se ht fs].
+  destruct nd as [cx pc dn ls mp ex bu mn np nn cr en th sp pe].
   destruct pc as [pcap pbuf pcl]. destruct tm as [tcap tbuf tcl]. destruct sh as [scap sbuf scl].
   destruct hb as [hcap hbuf hcl].
-  destruct Hinv as (Hrd & Hsel & Hhb & Hfst & Hd & (Ht1 & Ht2 & Ht3)).
+  destruct Hinv as (Hrd & Hsel & Hhb & Hfst & Hd & (Ht1 & Ht2 & Ht3) & (Hhb1 & _) & _).
   cbn in *. subst pcl pbuf tcl tcap.
   assert (Hc : Nat.ltb 0 pcap = true) by (apply Nat.ltb_lt; lia).
   pose proof (Hblk RRd 0 eq_refl ltac:(lia)) as Brd0.
@@ -40,8 +41,9 @@ Proof.
       destruct Ht3 as [->|[_ Hx]]; [|discriminate]. cbn in Brd0. discriminate. }
     assert (Gsel : match sst with TRunning => false | _ => true end || Nat.eqb spc 0 && true = true).
     { destruct sst; try reflexivity. destruct spc as [|[|[|p]]]; try lia; cbn in *; try reflexivity; discriminate. }
-    assert (Ghb : match hst with TRunning => false | _ => true end || Nat.eqb hpc 0 && true = true).
-    { destruct hst; try reflexivity. destruct hpc as [|[|[|p]]]; try lia; cbn in *; try reflexivity; discriminate. }
+    assert (Ghb : match hst with TRunning => false | _ => true end || Nat.eqb hpc 1 && true = true).
+    { destruct hst; try reflexivity. destruct hpc as [|[|[|[|p]]]]; try lia; cbn in *; try reflexivity; try discriminate.
+      destruct scl; discriminate. }
     rewrite Grd, Gsel, Ghb. reflexivity.
   - (* somebody is inside doShutdown: every instruction there is enabled *)
     exfalso. unfold Data in Hd; cbn in Hd. destruct Hd as (Hr0 & Hrun & _ & Hb). unfold Body in Hb.
@@ -49,18 +51,19 @@ Proof.
     + destruct Hrd as [[-> _]|(_ & Hx & _)]; [|congruence]. subst rst.
       do 8 (try destruct rpc as [|rpc]); cbn in *; try (exfalso; exact Hb);
         repeat match goal with H : _ /\ _ |- _ => destruct H | H : exists _, _ |- _ => destruct H end;
-        subst; cbn in *; try rewrite Hc in *; discriminate.
+        subst; cbn in *; try rewrite Hc in *; try (destruct hr; discriminate); discriminate.
     + destruct Hsel as [[-> _]|(_ & Hx & _)]; [|congruence]. subst sst.
       do 8 (try destruct spc as [|spc]); cbn in *; try (exfalso; exact Hb);
         repeat match goal with H : _ /\ _ |- _ => destruct H | H : exists _, _ |- _ => destruct H end;
-        subst; cbn in *; try rewrite Hc in *; discriminate.
+        subst; cbn in *; try rewrite Hc in *; try (destruct hr; discriminate); discriminate.
     + destruct Hhb as [[-> _]|(_ & Hx & _)]; [|congruence]. subst hst.
       do 8 (try destruct hpc as [|hpc]); cbn in *; try (exfalso; exact Hb);
         repeat match goal with H : _ /\ _ |- _ => destruct H | H : exists _, _ |- _ => destruct H end;
-        subst; cbn in *; try rewrite Hc in *; discriminate.
+        subst; cbn in *; try rewrite Hc in *; try (destruct hr; discriminate); discriminate.
     + discriminate Hrun.
   - (* ended association: every thread that still runs can move *)
-    unfold Data in Hd; cbn in Hd. destruct Hd as (_ & _ & Hs1 & Hs2 & Hs3). subst scl hcl so.
+    unfold Data in Hd; cbn in Hd. destruct Hd as (_ & _ & Hs1 & Hs2 & Hs3). unfold hb_cancelled in Hs2. cbn in Hs2.
+    subst scl so.
     destruct Hrd as [[_ Hx]|(-> & _ & Hr)]; [discriminate|].
     destruct Hsel as [[_ Hx]|(-> & _ & Hs)]; [discriminate|].
     destruct Hhb as [[_ Hx]|(-> & _ & Hh)]; [discriminate|].
@@ -72,7 +75,8 @@ Proof.
     { destruct sst; try reflexivity. destruct spc as [|[|[|p]]]; try lia; cbn in *; try discriminate.
       unfold ch_recv in Bsel2. cbn in Bsel2. destruct sbuf; discriminate. }
     assert (Ghb : match hst with TRunning => false | _ => true end = true).
-    { destruct hst; try reflexivity. destruct hpc as [|[|[|p]]]; try lia; cbn in *; try discriminate.
+    { destruct hst; try reflexivity. destruct hpc as [|[|[|[|p]]]]; try lia; cbn in *; try discriminate.
+      specialize (Hhb1 eq_refl (or_introl eq_refl)). subst hr. rewrite (Hs2 eq_refl) in Bhb0.
       unfold ch_recv in Bhb0. cbn in Bhb0. destruct hbuf; discriminate. }
     rewrite Grd, Gsel, Ghb. reflexivity.
 Qed.
@@ -95,23 +99,18 @@ Theorem no_deadlock_without_stop cfg ev sch :
   quiescent_ok (run (init cfg ev) sch) = true.
 Proof.
   intros Hns Hest Hq.
-  set (P := fun s => (GInv cfg s /\ NS s) /\ FInv cfg s).
-  assert (H : P (run (init cfg ev) sch)).
-  { unfold run. apply (run_inv state tid step P).
-    - intros s l s' [[Hg Hn] Hf] Hs. split; [split; [eapply ginv_step; eauto | eapply ns_step; eauto]|].
-      eapply finv_step; eauto.
-    - split; [split; [apply ginv_init | apply ns_init; exact Hns]|apply finv_init]. }
+  destruct (ns_run cfg ev sch Hns) as [Hg Hn]. pose proof (einv_run cfg ev sch) as Hf.
   assert (Hb : cbuf (n_pcd (s_node (run (init cfg ev) sch))) = []).
   { apply quiet_buffer_empty; [exact Hns|]. apply Hq. unfold thread_labels. cbn. left. reflexivity. }
   set (s := run (init cfg ev) sch) in *.
-  destruct H as [[Hg Hn] Hf]. pose proof Hn as [Hp Hc Hd Ht Hs Hm Hl Hcap He].
+  pose proof Hn as [Hp Hc Hd Ht Hs Hpe Hm Hl Hcap He].
   unfold quiescent_ok. apply andb_true_iff. split.
   - apply forallb_forall. intros a Ha. apply In_nth_error in Ha. destruct Ha as [i Hi].
     destruct (Forall2_nth _ _ _ _ _ Hg Hi) as (se & Hse & Hai).
     rewrite nth_error_map in Hse. destruct (nth_error cfg i) as [c|] eqn:Ec; [|discriminate].
     cbn in Hse. injection Hse as <-.
     assert (Hfc : c_first c = None) by (apply Hest; eapply nth_error_In; eauto).
-    destruct (Hf i c a Ec Hfc Hi) as [Hfin _].
+    pose proof (Hf i c a Ec Hfc Hi) as Hfin.
     apply (assoc_not_stuck (c_sess c) (N.of_nat i) (s_node s) a Hai Hfin Hd Hb).
     + rewrite Hcap. unfold pcd_cap. lia.
     + intros r alt Hr Halt.
@@ -122,5 +121,5 @@ Proof.
       rewrite Hr, Hlt in Hq. cbn [negb orb] in Hq. rewrite Hi in Hq.
       destruct (thread_step (N.of_nat i) r alt (s_node s) a (get_thr a r)) as [[[nd' a'] t']| |site];
         try discriminate. reflexivity.
-  - unfold dead. rewrite Hp, Hm. cbn. unfold node_parked_ok. rewrite Ht, Hs, Hc. reflexivity.
+  - unfold dead. rewrite Hp, Hm. cbn. unfold node_parked_ok. rewrite Ht, Hs, Hpe, Hc. reflexivity.
 Qed.
